@@ -132,6 +132,9 @@ class TocFetcher:
         logger.debug('[%d]: Start fetching...', self.port)
         # Register callback in this class for the port
         self.cf.add_port_callback(self.port, self._new_packet_cb)
+        # Abandon the download if the link goes away, otherwise this fetcher stays
+        # registered and answers the packets of the next connection as well
+        self.cf.disconnected.add_callback(self._disconnected)
 
         # Request the TOC CRC
         self.state = GET_TOC_INFO
@@ -144,8 +147,14 @@ class TocFetcher:
             pk.data = (CMD_TOC_INFO,)
             self.cf.send_packet(pk, expected_reply=(CMD_TOC_INFO,))
 
+    def _disconnected(self, uri):
+        """The link was closed or lost before the TOC was complete"""
+        self.cf.disconnected.remove_callback(self._disconnected)
+        self.cf.remove_port_callback(self.port, self._new_packet_cb)
+
     def _toc_fetch_finished(self):
         """Callback for when the TOC fetching is finished"""
+        self.cf.disconnected.remove_callback(self._disconnected)
         self.cf.remove_port_callback(self.port, self._new_packet_cb)
         logger.debug('[%d]: Done!', self.port)
         self.finished_callback()
